@@ -35,6 +35,12 @@ open LZ LZ.Gen LZ.GenBuf LZ.GenHash LZ.GenSuffix LZ.GenBitset LZ.GsapBits LZ.Gen
 def ofGSAPs (s : Gen.gsap) (g : GsapD) : Parser :=
   { kind := .GSAP, cfg := ofGSAP s.GSAPConfig, buf := ofPB s.ParserBuffer, dict := .gsap g }
 
+/-- decide the FIRST `if` of the goal (outermost, leftmost) from the context, whatever the spelling of its test
+    (operand order, `≠`/`=` with swapped arms, De Morgan) and whichever arm is taken; atoms like `iand flags 1` are opaque
+    to omega, `Int.ofNat` is normalised first -/
+macro "gs_ite" : tactic =>
+  `(tactic| first | rw [if_pos (by omega)] | rw [if_neg (by omega)] | rw [if_pos (by int_omega)] | rw [if_neg (by int_omega)])
+
 /-- `n` of `Parse`: `min (len(s.Data) - s.W) s.BlockSize` in Go `int` arithmetic -/
 def blockNG (s : Gen.gsap) : Int :=
   if (Int.ofNat s.ParserBuffer.Data.len) - s.ParserBuffer.W > s.GSAPConfig.BlockSize then s.GSAPConfig.BlockSize
@@ -48,20 +54,14 @@ theorem gen_gsap_parse_empty (grow : Nat → Nat → Nat) (fuel : Nat) (lcp : Sl
   have hs : Slice.slice blk.Literals 0 (0 : Int) = Res.ok { arr := blk.Literals.arr, len := 0 } := by
     unfold Slice.slice
     simp [Slice.cap]
-  unfold blockNG at h
+  -- the clamp in any spelling is a minimum; the test `n == 0` is evaluated as it comes
+  have hmin : Min.min s.GSAPConfig.BlockSize ((Int.ofNat s.ParserBuffer.Data.len) - s.ParserBuffer.W) = 0 := by
+    unfold blockNG at h; rw [← ite_lt_min]; exact h
+  have hmin' : Min.min ((Int.ofNat s.ParserBuffer.Data.len) - s.ParserBuffer.W) s.GSAPConfig.BlockSize = 0 := by
+    rw [Int.min_comm]; exact hmin
   unfold gsap_Parse gsap_Parse_nilable; simp only [Bool.false_eq_true]
-  by_cases hgt : (Int.ofNat s.ParserBuffer.Data.len) - s.ParserBuffer.W > s.GSAPConfig.BlockSize
-  · have hB : s.GSAPConfig.BlockSize = 0 := by simpa only [hgt, if_true] using h
-    have hge : (Int.ofNat s.ParserBuffer.Data.len) - s.ParserBuffer.W ≥ s.GSAPConfig.BlockSize := by omega
-    simp only [hgt, hge, if_true, if_false, hs, bind_ok, resetBlk]
-    simp only [hB, if_true]
-  · have hL : (Int.ofNat s.ParserBuffer.Data.len) - s.ParserBuffer.W = 0 := by simpa only [hgt, if_false] using h
-    by_cases hge : (Int.ofNat s.ParserBuffer.Data.len) - s.ParserBuffer.W ≥ s.GSAPConfig.BlockSize
-    · have hB : s.GSAPConfig.BlockSize = 0 := by omega
-      simp only [hgt, hge, if_true, if_false, hs, bind_ok, resetBlk]
-      simp only [hB, hL, if_true]
-    · simp only [hgt, hge, if_true, if_false, hs, bind_ok, resetBlk]
-      simp only [hL, if_true]
+  simp only [if_false, gt_iff_lt, ge_iff_le, ite_lt_min, ite_le_min, hmin, hmin', hs, bind_ok, resetBlk]
+  try (first | rfl | simp)
 
 /-- the index invariant of a state with a suffix array -/
 structure SaIdx (s : Gen.gsap) : Prop where
@@ -166,7 +166,7 @@ theorem parse_prep (fuel : Nat) (SS : Slice → GSlice Int32 → Res (GSlice Int
       · omega
       · exact hI.le
 
-set_option maxHeartbeats 1000000 in
+set_option maxHeartbeats 2000000 in
 /-- **`Parse` = `gsapParseW`** (existence form: under `ParseOKG` neither side fails). -/
 theorem gen_gsap_parse_ex (grow : Nat → Nat → Nat) (fuel : Nat) (lcp : Slice → Slice → Int) (hlcp : LcpSpec lcp)
     (SS : Slice → GSlice Int32 → Res (GSlice Int32)) (hSS : SortSpec SS)
@@ -203,13 +203,18 @@ theorem gen_gsap_parse_ex (grow : Nat → Nat → Nat) (fuel : Nat) (lcp : Slice
     rw [hbN, hWn]
     show (if (s.ParserBuffer.Data.len : Int) - _ ≥ _ then _ else (s.ParserBuffer.Data.len : Int) - _) = _
     split <;> omega
+  -- … and as a minimum, whichever way round (every `if`-spelling of the clamp is normalised to one of these)
+  have hmin : Min.min s.GSAPConfig.BlockSize ((Int.ofNat s.ParserBuffer.Data.len) - s.ParserBuffer.W) =
+      (((ofGSAPs s g).blockN : Nat) : Int) := by rw [← hnG, ← ite_lt_min]
+  have hmin' : Min.min ((Int.ofNat s.ParserBuffer.Data.len) - s.ParserBuffer.W) s.GSAPConfig.BlockSize =
+      (((ofGSAPs s g).blockN : Nat) : Int) := by rw [Int.min_comm]; exact hmin
   by_cases hn : (ofGSAPs s g).blockN = 0
   · have hg : blockNG s = 0 := by unfold blockNG; rw [hnG, hn]; rfl
     refine ⟨ofGW s, 0, .empty, ⟨[], []⟩, by unfold gsapParseW; rw [if_pos hn], s, resetBlk blk,
       gen_gsap_parse_empty grow fuel lcp SS BI s blk flags hg, rfl, ?_, rfl, Or.inr rfl, rfl, rfl, Nat.zero_le _, hP⟩
     show s.ParserBuffer = { s.ParserBuffer with W := s.ParserBuffer.W + 0 }
     rw [Int.add_zero]
-  generalize hnN : (ofGSAPs s g).blockN = nN at hn hbN hnG hnG'
+  generalize hnN : (ofGSAPs s g).blockN = nN at hn hbN hnG hnG' hmin hmin'
   have hLlen : Wn + nN ≤ s.ParserBuffer.Data.len := by omega
   have hn0 : ¬ ((nN : Int) = 0) := by omega
   obtain ⟨mm, hmm⟩ : ∃ mm : Nat, s.GSAPConfig.MinMatchLen = (mm : Int) :=
@@ -270,34 +275,38 @@ theorem gen_gsap_parse_ex (grow : Nat → Nat → Nat) (fuel : Nat) (lcp : Slice
           ((Wn + nN : Nat) : Int) - (Wn : Int), Gen.Err.ok) = R) →
       gsap_Parse grow fuel lcp SS BI s blk flags = R := by
     intro R h1 h2 h3
+    -- shape-independent: no generated test is spelled out below; every `if` of the text is decided from the model-side
+    -- case split by `gs_ite` in whatever spelling / arm order it comes, the clamp is any spelling of a minimum
     unfold gsap_Parse gsap_Parse_nilable; simp only [Bool.false_eq_true]
     simp only [if_false]
-    simp only [hnG, hnG']
+    simp only [gt_iff_lt, ge_iff_le, ite_lt_min, ite_le_min, hmin, hmin']
     rw [hs0, bind_ok]
-    rw [if_neg hn0]
+    try dsimp only
+    gs_ite
     rw [hWn]
     refine bind_trans (v := s1) ?_ ?_
     · by_cases hre : Wn + nN > s.sa.len
-      · rw [if_pos (by show (Wn : Int) + (nN : Int) > (s.sa.len : Int); omega), hs1a hre, bind_ok]
-      · rw [if_neg (by show ¬ (Wn : Int) + (nN : Int) > (s.sa.len : Int); omega), hs1b hre]
+      · gs_ite; rw [hs1a hre, bind_ok]
+      · gs_ite; rw [hs1b hre]
     try dsimp only
-    rw [hprep.pb, slice_okI s.ParserBuffer.Data 0 ((Wn : Int) + (nN : Int)) 0 (Wn + nN) rfl (by omega)
+    rw [hprep.pb, slice_okI s.ParserBuffer.Data 0 _ 0 (Wn + nN) rfl (by omega)
       (Nat.zero_le _) (by omega), bind_ok]
     simp only [List.drop_zero, Nat.sub_zero]
     rw [hl1, bind_ok]
     try dsimp only
     have hW2 : s2.ParserBuffer.W = (Wn : Int) := by rw [hpb2]; exact hWn
     by_cases hcnd : iand flags 1 ≠ 0 ∧ Int.ofNat blk2.Sequences.length > 0
-    · rw [if_pos hcnd]
+    · gs_ite
       by_cases hlt : st'.litIndex < Wn + nN
-      · rw [if_pos (by show (st'.litIndex : Int) < ((Wn + nN : Nat) : Int); omega),
-          gslice_ok s2.sa 0 (0 : Int) 0 0 rfl rfl (Nat.le_refl 0) (Nat.zero_le _)]
+      · gs_ite
+        rw [gslice_ok s2.sa 0 (0 : Int) 0 0 rfl rfl (Nat.le_refl 0) (Nat.zero_le _)]
         simp only [bind_ok, hW2]
         exact h1 hcnd hlt
-      · rw [if_neg (by show ¬ (st'.litIndex : Int) < ((Wn + nN : Nat) : Int); omega)]
+      · gs_ite
         simp only [bind_ok, hW2]
         exact h2 hcnd hlt
-    · rw [if_neg hcnd, slice_okI _ _ (Int.ofNat (Wn + nN)) st'.litIndex (Wn + nN) rfl rfl hli2
+    · gs_ite
+      rw [slice_okI _ _ (Int.ofNat (Wn + nN)) st'.litIndex (Wn + nN) rfl rfl hli2
         (by show Wn + nN ≤ s.ParserBuffer.Data.arr.length; omega)]
       simp only [bind_ok, hW2]
       exact h3 hcnd
